@@ -57,7 +57,7 @@ package value
 //@       && len(result0.a()) == len(t.a()) + len(b.a())
 //@       && (forall i :: 0 <= i && i < len(t.a()) ==> result0.a()[i] == t.a()[i])
 //@       && (forall i :: 0 <= i && i < len(b.a()) ==> result0.a()[len(t.a()) + i] == b.a()[i])
-//@   ensures[concat_fresh;C10] t.typ == arrayT && b.typ == arrayT && op == bytecode.ADD ==> fresh(result0.a()) || len(result0.a()) == 0
+//@   ensures[concat_fresh;C10,C11] t.typ == arrayT && b.typ == arrayT && op == bytecode.ADD ==> fresh(result0.a()) || len(result0.a()) == 0
 //@   ensures[type_error] !anyNil(t, b) && !(isNum(t) && isNum(b)) && !(op == bytecode.ADD && ((t.typ == stringT && b.typ == stringT) || (t.typ == arrayT && b.typ == arrayT))) ==> isErr(result0, result1, ErrType)
 //@   ensures[valid]     valid(result0)
 //
